@@ -126,6 +126,11 @@ def compactOnly : Pc → Bool
   | .picked | .reading | .merging | .closeOwn | .oDecd | .oRemoved => true
   | _ => false
 
+/-- no output number has been allocated yet -/
+def preAlloc : Pc → Bool
+  | .start | .picked | .reading | .merging => true
+  | _ => false
+
 def delRange : Pc → Bool
   | .doRolled | .doEvicted | .doRemoved => true
   | _ => false
@@ -144,6 +149,8 @@ def DeadR (s : St) (f : Nat) : Prop := Dead s f ∧ f ∉ (s.ver s.cur).rollup
 /-- per-job part of the invariant -/
 structure JobOk (s : St) (j : Nat) (b : Job) : Prop where
   konly : compactOnly b.pc = true → b.kind = .compact
+  noOut : preAlloc b.pc = true → b.out = none
+  ownIdx : (b.pc = .oDecd ∨ b.pc = .oRemoved) → b.snap < s.nSnap
   pend : outPending b.pc = true → ∀ f ∈ outNo b, f ∈ s.pending
   ondisk : outOnDisk b.pc = true → ∀ f ∈ outNo b, f ∈ s.disk
   outlt : ∀ f ∈ outNo b, f < s.nextFile
@@ -157,7 +164,7 @@ structure JobOk (s : St) (j : Nat) (b : Job) : Prop where
     (∀ f ∈ b.edit.rollAdd, f ∈ outNo b)
   built : b.pc = .cSnapped → b.newVer < s.nextVer ∧ s.ver b.newVer = applyEdit (s.ver s.cur) b.edit
   reading : b.pc = .reading → ∀ f ∈ b.todoIn, f ∈ (s.ver (s.snap b.snap).ver).nos
-  inputs : b.kind = .compact → ownRange b.pc = true → ∀ m ∈ b.inputs, m.no ∈ (s.ver (s.snap b.snap).ver).nos
+  inputs : b.pc = .picked → ∀ m ∈ b.inputs, m.no ∈ (s.ver (s.snap b.snap).ver).nos
   listed : b.pc = .doListed → ∀ f ∈ b.dlist, f < s.nextFile
   pended : b.pc = .doPended → ∀ f ∈ b.dlist, f ∉ b.live → PastPending s f
   actived : b.pc = .doActived → ∀ f ∈ b.dlist, f ∉ b.live → Dead s f
